@@ -1,6 +1,6 @@
 """C02 - Interlocks: no unsafe tool/coolant/halt sequence is ever emitted (E1, to closure)."""
 
-from ._base import BuilderSystem, run_configs, replay_history
+from ._base import BuilderSystem, run_configs, replay_history, with_debug_logging
 from ..common import rf, import_gscrib
 
 import_gscrib()
@@ -188,7 +188,7 @@ def systems(tier):
         # quick merges states that differ only in feed rate / bed temperature / time units (thorough keeps them apart)
         return [("interlocks-quick", C02System(ALL_HALTS, full_canon=False), 40, None)]
     return [("interlocks-thorough", C02System(ALL_HALTS), 60, None),
-            ("interlocks-wide-bounds-thorough", C02System(ALL_HALTS, bounds=True), 60, None)]
+            ("interlocks-wide-bounds-debug-logging-thorough", with_debug_logging(C02System(ALL_HALTS, bounds=True)), 60, None)]
 
 
 def run(tier, seed):
